@@ -106,7 +106,8 @@ fn data_trailings(thorough: bool) -> Vec<(bool, Vec<usize>)> {
 }
 
 pub fn entries(tr: &mut Trace, rng: &mut Rng, thorough: bool) {
-    let lays = [Lay::C];
+    // buffers and query arrays of the *_into / array entry points rotate through these layouts
+    let lays = [Lay::C, Lay::F, Lay::Rev, Lay::Perm, Lay::Window];
     // ---- 1-D
     for (dynamic, trailing) in data_trailings(thorough) {
         for strat_i in 0..3 {
@@ -170,7 +171,18 @@ pub fn entries(tr: &mut Trace, rng: &mut Rng, thorough: bool) {
         let dr = real(&data, Lay::C);
         let xr = real1(&x, Lay::C);
         let cfg = Cfg1 { x: Some(&xr), data: &dr, dtag: "Ix2", store: Store::Owned };
-        for strat in [Strat1::Linear { ex: false }, Strat1::Spline { ex: false, bc: Bc::Global("Natural") }] {
+        for (si, strat) in [Strat1::Linear { ex: false }, Strat1::Spline { ex: false, bc: Bc::Global("Natural") }, Strat1::Spline { ex: false, bc: Bc::Global("Periodic") }]
+            .into_iter()
+            .enumerate()
+        {
+            // the periodic strategy needs equal end rows
+            let mut pdata = data.clone();
+            if si == 2 {
+                let first = pdata.index_axis(ndarray::Axis(0), 0).to_owned();
+                pdata.index_axis_mut(ndarray::Axis(0), 3).assign(&first);
+            }
+            let pdr = real(&pdata, Lay::C);
+            let cfg = Cfg1 { x: Some(&xr), data: &pdr, dtag: "Ix2", store: Store::Owned };
             if let Some(b) = do_build1(tr, &cfg, &strat, &[]) {
                 let pts = vec![0.5f32, 4.0, 1.25, 3.0];
                 all_entries_1d(tr, rng, &b, &pts, false, false, &lays);
@@ -192,7 +204,7 @@ pub fn entries(tr: &mut Trace, rng: &mut Rng, thorough: bool) {
                     b.q(tr, Entry::Interp, "-", &scalar_q(bad), Lay::C);
                     b.q(tr, Entry::Into, "-", &scalar_q(bad), Lay::C);
                 }
-            }
+            };
         }
     }
     // the same for 2-D: an out-of-range x, y or both at the first / middle / last position of a batch
@@ -440,7 +452,7 @@ pub fn buffers(tr: &mut Trace, rng: &mut Rng, thorough: bool) {
         };
         let pts = [x[0], x[3], (x[1] + x[2]) / 2.0, x[1]];
         // correct buffers first (windows into larger poisoned allocations, several layouts)
-        for lay in [Lay::Window, Lay::Strided, Lay::C] {
+        for lay in ALL_LAYS {
             b.q(tr, Entry::Into, "-", &scalar_q(pts[2]), lay);
         }
         for w in wrong_shapes(&trailing, 0, dynamic) {
@@ -463,7 +475,7 @@ pub fn buffers(tr: &mut Trace, rng: &mut Rng, thorough: bool) {
             let q = arr_q(&qshape, (0..nq).map(|i| pts[i % 4]).collect(), Lay::C);
             let mut req = qshape.clone();
             req.extend_from_slice(&trailing);
-            for lay in [Lay::Window, Lay::C] {
+            for lay in ALL_LAYS {
                 b.q(tr, Entry::ArrayInto, tag, &q, lay);
             }
             let dyn_out = tag == "IxDyn" || dynamic || req.len() > 6;
@@ -505,7 +517,9 @@ pub fn buffers(tr: &mut Trace, rng: &mut Rng, thorough: bool) {
             let qy = arr_q(&qshape, (0..nq).map(|i| py[i % 4]).collect(), Lay::C);
             let mut req = qshape.clone();
             req.extend_from_slice(&trailing);
-            b.q(tr, Entry::ArrayInto, tag, &qx, &qy, Lay::Window);
+            for lay in ALL_LAYS {
+                b.q(tr, Entry::ArrayInto, tag, &qx, &qy, lay);
+            }
             let dyn_out = tag == "IxDyn" || dynamic || req.len() > 6;
             for w in wrong_shapes(&req, qshape.len(), dyn_out) {
                 b.q_buf(tr, Entry::ArrayInto, tag, &qx, &qy, Some(BufSpec { shape: w, lay: Lay::Window }));
